@@ -18,6 +18,9 @@ pub struct MemSocket {
     pub fail: Arc<Mutex<HashSet<SocketAddr>>>,
     /// also record every send in the event trace of the node (node engine)
     pub trace_sends: Arc<Mutex<bool>>,
+    /// `send_to` hands the datagram over at once and completes this many (virtual) milliseconds later —
+    /// a proxied, rate-limited or completion-based socket
+    pub send_delay_ms: Arc<Mutex<u64>>,
 }
 
 impl MemSocket {
@@ -29,6 +32,7 @@ impl MemSocket {
             outbox: Default::default(),
             fail: Default::default(),
             trace_sends: Default::default(),
+            send_delay_ms: Default::default(),
         }
     }
     pub fn deliver(&self, bytes: Vec<u8>, from: SocketAddr) {
@@ -49,6 +53,10 @@ impl SocketTrait for MemSocket {
             btdht::verif::trace(|| format!("{local} W send {target} {} {}", if ok { "ok" } else { "fail" }, crate::util::hex(buf)));
         } else {
             self.outbox.lock().unwrap().push((*target, buf.to_vec(), ok));
+        }
+        let delay = *self.send_delay_ms.lock().unwrap();
+        if delay > 0 {
+            tokio::time::sleep(std::time::Duration::from_millis(delay)).await;
         }
         if ok {
             Ok(())
